@@ -443,7 +443,9 @@ class Ctx:
             "wall_s": round(time.time() - self.t0, 2),
             "violations": nviol,
         }
-        with open(os.path.join(EVID, self.prop + ".json"), "w") as f:
+        # /verif/evidence describes /repo only: a run against a scratch worktree (VERIF_REPO) keeps its evidence with its output
+        dest = os.path.join(EVID, self.prop + ".json") if os.path.realpath(REPO) == "/repo" else os.path.join(self.out, "evidence.json")
+        with open(dest, "w") as f:
             json.dump(ev, f, indent=1)
 
 
